@@ -9,6 +9,7 @@ import traceback
 REGISTRY = {
     "C01": ("props_acnsim", "check_C01"), "C02": ("props_acnsim", "check_C02"), "C04": ("props_acnsim", "check_C04"),
     "C05": ("props_acnsim", "check_C05"), "C09": ("props_acnsim", "check_C09"), "C10": ("props_acnsim", "check_C10"),
+    "C13": ("props_evse", "check_C13"),
 }
 
 
